@@ -34,7 +34,7 @@ def build_plan(choice: Choice, tier):
     rec = "Record" in p["variant"]
     # record variants: a JSON record class, or a pass-through record whose text is stored as it is (texts may end
     # with blanks or tabs, which a record file must keep)
-    p["record_class"] = ["json", "raw", "csv"][d(3, "record.class")] if rec else None
+    p["record_class"] = ["json", "raw", "csv", "derived"][d(4, "record.class")] if rec else None
     n = d(9, "init.n")
     if "MemoryMapped" in p["variant"] and n == 0:
         n = 1
@@ -166,6 +166,19 @@ def make_record_class(kind="json"):
     class Rec(JsonRecord):
         text: str
         n: int = 0
+    if kind == "derived":
+        # a record class that extends a CONCRETE record class which was used first (its own field list is longer)
+        Rec("warm-up", 1).save()
+        Rec.load(Rec("warm-up", 1).save())
+
+        @dataclass
+        class Derived(Rec):
+            extra: int = 0
+
+            @classmethod
+            def make(cls, s):
+                return cls(s, len(s), 3 * len(s) + 1)
+        return Derived
     return Rec
 
 
@@ -181,6 +194,8 @@ def execute(plan, choice, tmpdir, trace):
     Rec = make_record_class(plan.get("record_class") or "json") if rec else None
 
     def to_item(s):
+        if rec and hasattr(Rec, "make"):
+            return Rec.make(s)
         return Rec(s, len(s)) if rec else s
 
     csv_kind = plan.get("record_class") == "csv"
